@@ -6,11 +6,14 @@ func init() {
 		Units: []Unit{
 			{PkgDir: "pkg/cli/svg", PkgPath: "evylang.dev/evy/pkg/cli/svg", PkgName: "svg", Files: []string{"svg/c19.go"}, Harnesses: []Harness{
 				{Fn: "ZZC19History", Quick: p("S", 2), Thorough: p("S", 3), Expect: []string{"history-ok", "witness:end"}, Cross: true},
+				{Fn: "ZZC19Step", Quick: p("T", 2, "COLS", 2, "FULL", 0), Thorough: p("T", 2, "COLS", 4, "FULL", 1), Expect: []string{"step-ok", "witness:end"}},
 				{Fn: "ZZC19Font", Expect: []string{"witness:end"}},
 				{Fn: "ZZC19Gridn", Quick: p("U", 25), Thorough: p("U", 10), Expect: []string{"witness:end"}},
 			}},
 			evalUnit([]string{"evaluator/common.go", "evaluator/c13.go", "evaluator/c19e.go"},
 				Harness{Fn: "ZZC19Args", Expect: []string{"gridn", "poly", "ellipse", "forward", "witness:end"}}),
+			mainUnit([]string{"main/c18.go", "main/c18native.go", "main/c05m.go", "main/c19m.go"},
+				Harness{Fn: "ZZC19CLI", Expect: []string{"cli-svg", "witness:end"}}),
 		},
 		Assumptions: []string{
 			"every numeric argument is an unconstrained float64 (NaN, infinities, negative, zero); colour strings from {\"red\", \"\", an hsl() string, a markup-like string}",
@@ -19,7 +22,7 @@ func init() {
 		},
 		Outside: []string{
 			"XML serialisation (encoding/xml) and escaping: standard library behind the external boundary, not encoded",
-			"histories longer than S commands; rotation transform text of ellipse; font properties beyond baseline/align/size",
+			"histories longer than S commands from the initial state, and more than T commands after an arbitrary pen state (fill, stroke, width, cap, dash, cursor, with or without one pending shape); rotation transform text of ellipse; font properties beyond baseline/align/size",
 		},
 		LevelText: "bounded symbolic execution of GraphicsPlatform (Move, Line, Rect, Circle, Ellipse, Poly, Text, Clear, Width, Color, Stroke, Fill, Dash, Linecap, Font, Gridn, Push, nonDefaultAttr, transformX/Y, scale) over every command sequence of length S with symbolic numbers, compared shape by shape (geometry as FP terms, style as in effect when drawn) after flattening; evaluator-side argument validation of gridn/poly/ellipse for all numbers",
 		LevelNote: "trusts the flattening function and the expected-geometry formulas (10*x, 1000-10*y) in the harness, the engine and cvc5",
